@@ -105,15 +105,62 @@ def _coq_makefile():
     return None
 
 
-def audit_sources():
-    """Grep the development for anything that declares an axiom or switches a kernel check off."""
+def strip_coq_comments(txt):
+    """Blank out (nested) comments, keeping line structure."""
+    out = []
+    depth = 0
+    i = 0
+    n = len(txt)
+    while i < n:
+        if txt.startswith("(*", i):
+            depth += 1
+            out.append("  ")
+            i += 2
+        elif depth and txt.startswith("*)", i):
+            depth -= 1
+            out.append("  ")
+            i += 2
+        else:
+            c = txt[i]
+            out.append(c if (depth == 0 or c == "\n") else " ")
+            i += 1
+    return "".join(out)
+
+
+def coq_closure(roots):
+    """The .v files (relative to coq/) that the given files transitively Require from this development."""
+    seen = set()
+    todo = list(roots)
+    while todo:
+        f = todo.pop()
+        if f in seen or not os.path.exists(os.path.join(COQ, f)):
+            continue
+        seen.add(f)
+        txt = strip_coq_comments(open(os.path.join(COQ, f), errors="replace").read())
+        for m in re.finditer(r"Require(?:\s+Import|\s+Export)?((?:\s+[A-Za-z_]\w*(?:\.[A-Za-z_]\w*)*)+)\s*\.", txt):
+            for tok in m.group(1).split():
+                tok = tok.strip()
+                if tok.startswith("Elvis."):
+                    tok = tok[len("Elvis."):]
+                cand = tok.replace(".", "/") + ".v"
+                if os.path.exists(os.path.join(COQ, cand)):
+                    todo.append(cand)
+    return sorted(seen)
+
+
+def audit_sources(files=None):
+    """Grep the development for anything that declares an axiom or switches a kernel check off.
+    files: list of paths relative to coq/ (default: every .v file)."""
     bad = []
+    allv = []
     for r, _, fs in os.walk(COQ):
         for f in fs:
-            if not f.endswith(".v"):
-                continue
-            p = os.path.join(r, f)
-            txt = open(p, errors="replace").read()
+            if f.endswith(".v"):
+                allv.append(os.path.relpath(os.path.join(r, f), COQ))
+    for rel in (files if files is not None else sorted(allv)):
+        if True:
+            p = os.path.join(COQ, rel)
+            txt = strip_coq_comments(open(p, errors="replace").read())
             in_section = 0
             for i, line in enumerate(txt.split("\n"), 1):
                 if re.match(r"\s*Section\b", line):
@@ -151,7 +198,9 @@ def coq_check(ctx):
     if err:
         ctx.problems.append(Problem("build", "coq_makefile", {"log": err[-2000:]}))
         return
-    bad = audit_sources()
+    closure = coq_closure(props_list + spec.get("extract", []))
+    ctx.cov["coq_files_in_closure"] = closure
+    bad = audit_sources(closure)
     if bad:
         ctx.problems.append(Problem("audit", "forbidden construct in the Coq development", {"lines": bad[:20]}))
     targets = [e[:-2] + ".vo" for e in spec.get("extract", [])]
